@@ -106,7 +106,7 @@ PROPS = {
     'C01': dict(
         level='exploration', bins=WALKER_NAMES, fuzz=fuzz_jobs(400000),
         quick=walk_jobs(WALKER_NAMES, 6000, 40), thorough=walk_jobs(WALKER_NAMES, 20000, 60),
-        claim='The configuration invariant (root active iff activated, active only under an active parent, exactly one active sub-state per active composite region named by activeSubState(), all sub-states of an active orthogonal region active) is evaluated from the public answers after every API call and, through the Control object, inside every update/react/query/guard callback, over generated histories on 12 machine structures x several configurations, ASan+UBSan, library assertions live.',
+        claim='The configuration invariant (root active iff activated, active only under an active parent, exactly one active sub-state per active composite region named by activeSubState(), all sub-states of an active orthogonal region active) is evaluated from the public answers after every API call and, through the Control object, inside every update/react/query/guard callback, over generated histories on 15 machine structures x several configurations, ASan+UBSan, library assertions live.',
         note='Trusted: the generated structure table (independent DFS of tools/structgen.py). Not evaluated inside enter/exit/reenter and select/rank/utility (the statement excludes the middle of applying a transition).',
         technique='stateful property-based testing (rapidcheck): invariant over generated API/callback histories',
     ),
@@ -127,7 +127,7 @@ PROPS = {
     'C04': dict(
         level='exploration', bins=WALKER_NAMES, fuzz=fuzz_jobs(300000),
         quick=walk_jobs(WALKER_NAMES, 6000, 40), thorough=walk_jobs(WALKER_NAMES, 20000, 60),
-        claim='Guard rounds are segmented from the trace (scripted guards cancel and/or substitute requests of any kind): lifecycle callbacks only after the last guard, exit guards before entry guards, every guard sees the pending list that was requested for its round, every state that is exited/entered/re-entered had its guard invoked in the last approved round, an all-vetoed step leaves active and resumable configuration unchanged (apart from schedule marks), the final configuration equals the model applied to approved rounds only, and there are at most SUBSTITUTION_LIMIT rounds (limits 2 and 4).',
+        claim='Guard rounds are segmented from the trace (scripted guards cancel and/or substitute requests of any kind): lifecycle callbacks only after the last guard, exit guards before entry guards, every guard sees the pending list that was requested for its round, every state that is exited/entered/re-entered had its guard invoked in the last approved round, an all-vetoed step leaves active and resumable configuration unchanged (apart from schedule marks), the final configuration equals the model applied to approved rounds only, the per-state exit/enter/re-enter counts equal those the approved rounds lead to, and there are at most SUBSTITUTION_LIMIT rounds (limits 2 and 4). Metamorphic twin run: when every round after the last approved one was vetoed, the whole case is executed again with the guard requests that led to the vetoed rounds neutralised; lifecycle callbacks and active/resumable configuration of every step must be identical (decides overlapping batches without the model).',
         note='Round boundaries are detected from control.requests().count() inside guards. Trusted: the reference model for the final configuration.',
         technique='stateful property-based testing (rapidcheck) with scripted guards; trace invariants + model differential',
     ),
@@ -177,14 +177,14 @@ PROPS = {
     'C13': dict(
         level='exploration', bins=WALKER_NAMES,
         quick=walk_jobs(WALKER_NAMES, 6000, 40), thorough=walk_jobs(WALKER_NAMES, 20000, 60),
-        claim='In every step with exactly one guard round evaluating exactly one pending transition request the guards tabulate isPendingEnter/Exit/Change for all state ids at the start of the round; the table is compared with the net activations/deactivations the step actually performed (states re-entered in place are not judged). activeSubState()/isActive() consistency is part of the C01 invariant and isResumable() drives the model\'s resume, so a wrong answer shows as a C02 disagreement in the same run.',
+        claim='In every step with exactly one guard round evaluating exactly one pending transition request the guards tabulate isPendingEnter/Exit/Change for all state ids at the start of the round; the table is compared with the net activations/deactivations the step actually performed (states re-entered in place are not judged). activeSubState() is compared with the active sub-states after every API call (also reported under C01); isScheduled() must equal isResumable(); after a single approved resume request on a composite-style region the sub-state reported resumable before the request (none: the first) must be the active one.',
         note='Between steps the three queries are checked to be false for every id after each API call.',
         technique='property-based testing (rapidcheck): query tables inside guards vs observed outcome',
     ),
     'C14': dict(
         level='exploration', bins=PAYLOAD_WALKERS,
         quick=walk_jobs(PAYLOAD_WALKERS, 8000, 40), thorough=walk_jobs(PAYLOAD_WALKERS, 40000, 60),
-        claim='Every request (external, from callbacks, with or without payload; int, 32-byte struct and alignas(16) struct payloads) carries a unique tag; guards must see exactly the issued tags on the pending transitions of their round, every lifecycle callback must see currentTransitions() equal to the approved transitions with their tags, previousTransitions() and lastTransitionTo() must return the same tags afterwards, payload-less requests must expose no payload, payload storage must be aligned.',
+        claim='Every request (external, from callbacks, with or without payload; int, 32-byte struct and alignas(16) struct payloads) carries a unique tag; guards must see exactly the issued tags on the pending transitions of their round, every lifecycle callback must see currentTransitions() equal to the approved transitions with their tags, previousTransitions() and lastTransitionTo() must return the same tags afterwards, payload-less requests must expose no payload, payload storage must be aligned. Plan tasks: an accepted append is read back at once (same origin, destination, kind and payload tag), and the tag of the task a region executes is expected on the pending transition of the next guard round. Requests issued by entry guards during an activation are judged like any other (currentTransitions() inside enter(), history afterwards).',
         note='The 32-byte and over-aligned payloads carry redundancy so that a partially copied payload is detected.',
         technique='property-based testing (rapidcheck): tagged payload tracking through guards, lifecycle callbacks and history',
     ),
@@ -204,20 +204,20 @@ PROPS = {
     ),
     'C15': dict(
         level='exploration', custom='c15', bins=[],
-        claim='One program (generic instrumented states over two structures, with and without utility regions) is built under a covering set of 10 feature sets x 2 activation modes (plans, serialization, transition history, structure report, utility theory, interface / verbose logging, type index off, debug state type; payload void/int, substitution limit 4/7, task capacity default/40) and, when development/ does not re-join to the single header byte for byte, under both header flavours; all builds of a group execute the same generated corpus restricted to the common feature subset and must produce identical digests of callbacks, pending counts and configurations; a mismatch is shrunk by dropping op records.',
+        claim='Programs (generic instrumented states; a plan-free program over two structures with and without utility regions, and a program that also appends/clears plans and reports success/failure, on the feature sets with plans) are built under a covering set of 11 feature sets x 2 activation modes, plus bottom-up reaction order groups, (plans, serialization, transition history, structure report, utility theory, interface / verbose logging, type index off, debug state type; payload void/int, substitution limit 4/7, task capacity default/40) and, when development/ does not re-join to the single header byte for byte, under both header flavours; all builds of a group execute the same generated corpus restricted to the common feature subset and must produce identical digests of callbacks, pending counts and configurations; a mismatch is shrunk by dropping op records.',
         note='When development/hfsm2 re-joins (tools/join.py re-implementation) to include/hfsm2/machine.hpp byte for byte, one flavour is built and the evidence says so. Feature sets that do not compile are reported as undecided, not as violations.',
         technique='cross-binary differential testing over a covering array of feature sets and header flavours, seeded corpus, ddmin shrinking',
     ),
     'C16': dict(
         level='exploration', bins=WALKER_NAMES,
         quick=walk_jobs(WALKER_NAMES, 5000, 40), thorough=walk_jobs(WALKER_NAMES, 20000, 60),
-        claim='Logger records and callbacks are written to one timeline. With a logger attached every invoked callback must be immediately preceded by its recordMethod record (interface-logging builds: and every record answered by its callback, except the react/query family; verbose build: records for non-overridden methods allowed), every scripted request / cancellation / succeed / fail must be followed by exactly its record with the right ids, select resolutions must report what select() returned, a detached logger must receive nothing; the whole case is re-run with no logger ever attached and must produce the same callbacks, actions and configurations; after every API call structure() has one entry per state in id order (type names compared) with isActive == isActive(id), and activityHistory() is either unchanged or the saturating successor for every state.',
+        claim='Logger records and callbacks are written to one timeline. With a logger attached every invoked callback must be immediately preceded by its recordMethod record (interface-logging builds: and every record answered by its callback, except the react/query family; verbose build: records for non-overridden methods allowed), every scripted request / cancellation / succeed / fail must be followed by exactly its record with the right ids, select resolutions must report what select() returned, a detached logger must receive nothing; the whole case is re-run with no logger ever attached and must produce the same callbacks, actions and configurations; after every API call structure() has one entry per state in id order (type names compared) with isActive == isActive(id), and activityHistory() is either unchanged or the saturating successor for every state (a churn operation runs 131-138 plain transitions in a row so that the counters reach their limits).',
         note='Anonymous region heads have no name in the report; their entries are only checked for isActive.',
         technique='property-based testing (rapidcheck): record/callback pairing on one timeline + logger on/off differential',
     ),
     'C17': dict(
         level='exploration', custom='c17', bins=[],
-        claim='Generated machine structures (320 quick / 6000 thorough, up to 125 states, width 12, depth 7, headless and width-1 regions, all root kinds, plus the zoo) are compiled with static_asserts that compare stateId<>(), regionId<>() and every published count (states, regions, composite/orthogonal regions, orthogonal units, prongs, serialization bits, default task capacity) with an independent depth-first numbering; every structure is spelled twice (template states and separately named structs) and both must agree. At run time the walkers additionally compare control.stateId() of every callback with the state\'s declared id.',
+        claim='Generated machine structures (320 quick / 6000 thorough, up to 320 states (counts beyond 255), width 12, depth 7, headless and width-1 regions, all root kinds, plus the zoo) are compiled with static_asserts that compare stateId<>(), regionId<>() and every published count (states, regions, composite/orthogonal regions, orthogonal units, prongs, serialization bits, default task capacity) with an independent depth-first numbering; every structure is spelled twice (template states and separately named structs) and both must agree. At run time the walkers additionally compare control.stateId() of every callback with the state\'s declared id.',
         note='The generated input is a program; the oracle is evaluated by the compiler. Trusted: the Python DFS of tools/structgen.py (30 lines, shares nothing with the library\'s type-list arithmetic).',
         technique='generated-program testing: random structures + independently derived static_asserts (compile = evaluate)',
         assumptions=['identifier types are the defaults (Short = uint8_t): structures stay below 128 states'],
